@@ -127,6 +127,20 @@ def harnesses(tier):
                           functions=fn, stubs=stubs, assumptions=assume, budget_s=1800))
         hs.append(Harness('c07.recv_balanced.3src', recv_balanced(3, 2, 14, 0, True), bounds={'sources': 3, 'publishes_per_source': 2, 'poll_decisions': 14},
                           functions=fn, stubs=stubs, assumptions=assume, budget_s=1800))
+    from props import s_level as SL
+    tw = SL.c07_balance(2, {}, {'pW1': 0, 'pW2': 0}, planted=True)
+    if q:
+        hs.append(SL.H('c07.S.split_rejoin', SL.c07_balance(4, {'pW1': (0, 500)}, {'pW2': 200}), twin=tw,
+                       bounds={'topology': 'balanced splitter -> 2 workers -> balanced joiner', 'frames': 4, 'free timing (ms)': {'pW1': [0, 500]}, 'fixed': {'pW2': 200, 'd': 10}}))
+    else:
+        hs.append(SL.H('c07.S.split_rejoin', SL.c07_balance(4, {'pW1': (0, 500), 'pW2': (0, 500)}), twin=tw,
+                       bounds={'topology': 'splitter -> 2 workers -> joiner', 'frames': 4, 'free timing (ms)': {'pW1': [0, 500], 'pW2': [0, 500]}}, budget=3000))
+        hs.append(SL.H('c07.S.split_rejoin3', SL.c07_balance(5, {'pW1': (0, 500)}, {'pW2': 200, 'pW3': 330}, workers=3),
+                       bounds={'topology': 'splitter -> 3 workers -> joiner', 'frames': 5, 'free timing (ms)': {'pW1': [0, 500]}}, budget=3000))
+        hs.append(SL.H('c07.S.split_rejoin.watcher', SL.c07_balance(4, {'pW1': (0, 500)}, {'pW2': 200}, watcher=True),
+                       bounds={'topology': "2 workers + '??' watcher on a branch", 'frames': 4, 'free timing (ms)': {'pW1': [0, 500]}}, budget=3000))
+        hs.append(SL.H('c07.S.splitter_speed', SL.c07_balance(4, {'pS': (0, 400)}, {'pW1': 150, 'pW2': 200}),
+                       bounds={'topology': 'splitter speed free', 'frames': 4, 'free timing (ms)': {'pS': [0, 400]}}, budget=3000))
     return hs
 
 
